@@ -14,7 +14,8 @@ TECHNIQUE = "exhaustive enumeration of parameter products and of every single-by
 RULE = ("positive: cipher {AES-128,-192,-256} x MAC {HMAC-SHA-1, HMAC-SHA-1-128, HMAC-SHA-256} x KDF {PBKDF2-SHA-1,-SHA-256} x "
         "salt length {0,8,16,33} x passphrase {empty, ASCII, non-ASCII, punctuation} x configuration length 0..48 bytes (every "
         "PKCS#7 padding length) x locator list {one pair, wrong+right, right+wrong, three pairs} with rounds=1, plus rounds "
-        "{1,2,1000}; negative: every other passphrase of a 6-element set; every byte position of the wrapped-key blob, of "
+        "{1,2,1000} and 16 large counts (10^4, 2^16, 10^5, 10^6, 2^20 each +-1, 2*10^6); encrypted configurations that "
+        "re-define 1-3 clear-text names in 3 casings; negative: every other passphrase of a 6-element set; every byte position of the wrapped-key blob, of "
         "encryption.data and of both MACs x XOR delta (quick {0x01,0x80,0xFF}, thorough all 255) -> must raise and leave "
         "VMX.attr unchanged. non-trivial = multi-pair locator list, multi-block or empty configuration, or any tamper case")
 ASSUMPTIONS = [
@@ -43,6 +44,10 @@ def shards(tier):
     for i in range(16):
         out.append({"kind": "tamper", "slice": [i, 16], "deltas": [1, 0x80, 0xFF] if tier == "quick" else list(range(1, 256))})
     out.append({"kind": "rounds"})
+    for kd in KDFS:
+        for part in range(4):
+            out.append({"kind": "rounds-big", "kdf": kd, "part": part})
+    out.append({"kind": "override"})
     out.append({"kind": "sequences"})
     out.append({"kind": "large"})
     return out
@@ -129,6 +134,23 @@ def run_shard(shard, ctx):
             for ln in (65519, 65520, 65535, 65536, 65537, 131072, 200001):
                 run_case({"kind": "positive", "cipher": c, "mac": m, "kdf": KDFS[0], "rounds": 1, "salt": 16, "phrase": 1, "len": ln,
                           "layout": "one"}, ctx)
+    elif kind == "rounds-big":
+        # the iteration count is whatever the key safe declares: decimal and binary round numbers +-1 up to 2,000,000
+        big = [9999, 10000, 10001, 65535, 65536, 65537, 99999, 100000, 100001, 999999, 1000000, 1000001, 1048575, 1048576,
+               1048577, 2000000]
+        for r in big[shard["part"]::4]:
+            run_case({"kind": "positive", "cipher": CIPHERS[r % 3], "mac": MACS[r % 3], "kdf": shard["kdf"], "rounds": r,
+                      "salt": 16, "phrase": 1, "len": 37, "layout": "one"}, ctx)
+    elif kind == "override":
+        # the encrypted configuration re-defines names that are also present in the clear-text part (in any casing): after
+        # unlock the decrypted value is the one exposed
+        names = [".encoding", "displayName", "memsize"]
+        for c, m in itertools.product(CIPHERS, MACS):
+            for mask in range(1, 8):
+                for casing in ("same", "lower", "upper"):
+                    run_case({"kind": "positive", "cipher": c, "mac": m, "kdf": KDFS[mask % 2], "rounds": 1, "salt": 8, "phrase": 2,
+                              "len": 0, "layout": "one", "override": [n for i, n in enumerate(names) if mask >> i & 1],
+                              "casing": casing}, ctx)
     elif kind == "rounds":
         for c, m, kd, r in itertools.product(CIPHERS, MACS, KDFS, (1, 2, 1000)):
             run_case({"kind": "positive", "cipher": c, "mac": m, "kdf": kd, "rounds": r, "salt": 16, "phrase": 2, "len": 37,
@@ -197,6 +219,9 @@ def run_case(case, ctx):
         if case["kind"] == "positive":
             phrase = PHRASES[case["phrase"]]
             cfg = config_text(case["len"])
+            if case.get("override"):
+                cs = {"same": str, "lower": str.lower, "upper": str.upper}[case["casing"]]
+                cfg = "\n".join(['%s = "decrypted-%d"' % (cs(n), i) for i, n in enumerate(case["override"])] + ['extra = "1"'])
             text, outer, rblob, dblob, salt, dk = build(case["cipher"], case["mac"], case["kdf"], case["rounds"], case["salt"],
                                                         phrase, cfg, case["layout"])
             if case["layout"] != "one" or case["len"] == 0 or case["len"] >= 16:
